@@ -344,12 +344,14 @@ enum Edge {
     Srw(usize, i64),                // key index, word index - L / 8
     Sup(bool, usize, i64, i64),     // immediate form?, key index, offset - L (i64::MAX = the append marker 2^64-1), (offset + len) - max
     Swr(bool, usize, i64),          // immediate form?, key index, len - max
+    Own(usize, u64),                // SRWQ of `count` slots from key index into the LAST 32 owned bytes of the stack buffer: only the first slot's destination is owned
 }
 thread_local! { static EDGE_QUEUE: std::cell::RefCell<std::collections::VecDeque<Edge>> = std::cell::RefCell::new(Default::default()); }
 
 fn edge_grid() -> Vec<Edge> {
     let mut v = vec![];
     for op in [0xc0u8, 0x37, 0x3b, 0x39] { for ki in [6usize, 5, 4] { for count in 0..=4u64 { v.push(Edge::Range(op, ki, count)); } } }
+    for ki in [0usize, 4] { for count in [1u64, 2, 3] { v.push(Edge::Own(ki, count)); } }
     // (every read item is preceded by a write that makes the slot present with a known length: 40, 64, 1 or 0 bytes —
     //  a panicking read reverts its transaction and with it the write)
     for (ki, l0) in [(0usize, 40i64), (1, 1), (3, 0)] {
@@ -376,6 +378,7 @@ fn resolve_edge(e: &Edge, s: &Sess, cur: &Dump) -> PStep {
             0x3b => PStep { sets: vec![kp(ki), (A2 as usize, s.vals_addr + 100), (A3 as usize, count)], raw: enc_rrrr(0x3b, KEY, STAT, A2, A3) },
             _ => PStep { sets: vec![kp(ki), (A2 as usize, s.buf + 512), (A3 as usize, count)], raw: enc_rrrr(0x39, A2, STAT, KEY, A3) },
         },
+        Edge::Own(ki, count) => PStep { sets: vec![kp(ki), (A2 as usize, s.buf + BUF - 32), (A3 as usize, count)], raw: enc_rrrr(0x39, A2, STAT, KEY, A3) },
         Edge::Srd(imm, ki, doff, dend) => {
             let l = lof(ki);
             let off = if doff <= -1000 { 0 } else { nn(l + doff) };
@@ -500,6 +503,9 @@ fn run_tx(out: &mut Out, run: u64, vm: &mut Vm<MemoryStorage>, ws: &WorldSt, tx:
         // nothing is told apart from a read that writes zeros
         if !st_exec(&mut rec, vm, &PStep { sets: vec![], raw: enc_i24(0x91, BUF as u32) }, false, false) { finished = true; break; }   // CFEI
         let buf = vm.registers()[RSP] - BUF;
+        // 64 bytes above the buffer are allocated and released again: memory that exists but is not owned (Edge::Own)
+        if !st_exec(&mut rec, vm, &PStep { sets: vec![], raw: enc_i24(0x91, 64) }, false, false) { finished = true; break; }   // CFEI 64
+        if !st_exec(&mut rec, vm, &PStep { sets: vec![], raw: enc_i24(0x92, 64) }, false, false) { finished = true; break; }   // CFSI 64
         let mut heap = 0u64;
         if sess_no % 2 == 1 {
             if !st_exec(&mut rec, vm, &PStep { sets: vec![(SCR as usize, 256)], raw: enc_rrrr(0x26, SCR, 0, 0, 0) & 0xfffc0000 }, false, false) { finished = true; break; }   // ALOC
